@@ -97,11 +97,16 @@ pub fn tok_case(p: TokCaseParams) -> BoxedStrategy<TokCase> {
     let excl = p.dict.space == SpaceMode::Exclusive;
     (
         dict_spec(p.dict),
-        proptest::option::weighted(if p.with_user { 0.5 } else { 0.0 }, raw_rows(8, excl)),
-        proptest::option::weighted(
-            if p.with_mapping { 0.4 } else { 0.0 },
-            (vec(any::<u16>(), 8), vec(any::<u16>(), 8)),
-        ),
+        if p.with_user {
+            proptest::option::weighted(0.5, raw_rows(8, excl)).boxed()
+        } else {
+            Just(None).boxed()
+        },
+        if p.with_mapping {
+            proptest::option::weighted(0.4, (vec(any::<u16>(), 8), vec(any::<u16>(), 8))).boxed()
+        } else {
+            Just(None).boxed()
+        },
         vec((any::<bool>(), 0u8..10), 2..=3),
         vec(raw_sentence(p.max_chunks), p.n_sentences),
         any::<i16>(),
